@@ -24,7 +24,7 @@ RUN_TIMEOUT = float(os.environ.get("VERIF_RUN_TIMEOUT", "420"))
 _WARM = False
 
 
-def _warm_up():
+def _warm_up(only=None):
     """Fixed warm-up of a zygote: import the library, load the JIT kernels (deterministic, no PRNG)."""
     global _WARM
     if _WARM:
@@ -37,6 +37,8 @@ def _warm_up():
 
     with contextlib.redirect_stdout(io.StringIO()), contextlib.redirect_stderr(io.StringIO()):
         for fam, prof, mid in (("daily", "default", 100), ("billing", "default", 101), ("hourly", "seed1", 102)):
+            if only and fam != only:
+                continue
             rec = {"fam": P.FAMILIES[fam][1], "mid": mid, "role": "baseline", "tz": "America/Chicago", "entry": "series"}
             try:
                 d = C.construct(em, C.build(rec))
@@ -45,7 +47,7 @@ def _warm_up():
                 m.predict(d, ignore_disqualification=True)
             except Exception:  # noqa: BLE001  a broken tree must surface through the checks, not here
                 pass
-    _WARM = True
+    _WARM = only is None
 
 
 def history_digest(events, outs) -> str:
@@ -167,21 +169,118 @@ def run_seed(job):
     return rec
 
 
-def _pool_init(th):
-    os.environ.update({k: v for k, v in env.child_env(th=th).items() if k in (
-        "NUMBA_CACHE_DIR", "OMP_NUM_THREADS", "MKL_NUM_THREADS", "OPENBLAS_NUM_THREADS", env.GUARD,
-        "PYTHONWARNINGS")})
+HASHSEEDS = ("0", "101", "20202", "3030303")
+
+
+def job_hashseed(job) -> str:
+    """The hash seed a job runs under is a pure function of its seed (recorded in replay files)."""
+    if job[0] == "sched":
+        return str(job[1].get("hashseed", "0"))
+    return HASHSEEDS[job[0] % len(HASHSEEDS)]
+
+
+def zygote_main():
+    """A warm zygote: reads jobs (JSON lines) on stdin, forks one child per run, answers with a pickled record."""
+    import base64
+
+    proto_out = os.fdopen(os.dup(1), "w")
+    devnull = os.open(os.devnull, os.O_WRONLY)
+    os.dup2(devnull, 1)
     signal.signal(signal.SIGINT, signal.SIG_IGN)
+    for line in sys.stdin:
+        job = json.loads(line)
+        job = tuple(job) if job[0] != "sched" else ("sched", job[1])
+        try:
+            rec = run_seed(job)
+        except BaseException as e:  # noqa: BLE001
+            rec = {"fatal": f"zygote: {type(e).__name__}: {e}", "trace": traceback.format_exc(limit=6)}
+        rec["hashseed"] = os.environ.get("PYTHONHASHSEED")
+        proto_out.write(base64.b64encode(pickle.dumps(rec)).decode() + "\n")
+        proto_out.flush()
+    os._exit(0)
+
+
+class ZygotePool:
+    """N warm zygote interpreters, each started with its own PYTHONHASHSEED; a job goes to a zygote of the hash
+    seed its seed selects, so that `seed -> execution` stays a function."""
+
+    def __init__(self, n=None, hashseeds=HASHSEEDS):
+        import queue
+        import subprocess
+        import threading
+
+        n = n or min(16, os.cpu_count() or 4)
+        n = max(n, len(hashseeds))
+        th = env.tree_hash()
+        self.queues = {h: queue.Queue() for h in hashseeds}
+        self.procs = []
+        self.threads = []
+        self.closed = False
+        for i in range(n):
+            h = hashseeds[i % len(hashseeds)]
+            p = subprocess.Popen([env.PY, "-W", "ignore", "-c", "from sim import runner; runner.zygote_main()"],
+                                 cwd=env.VERIF, env=env.child_env(threads="1", hashseed=h, th=th),
+                                 stdin=subprocess.PIPE, stdout=subprocess.PIPE, stderr=subprocess.DEVNULL, text=True,
+                                 bufsize=1)
+            self.procs.append(p)
+            t = threading.Thread(target=self._serve, args=(p, self.queues[h]), daemon=True)
+            t.start()
+            self.threads.append(t)
+
+    def _serve(self, p, q):
+        import base64
+
+        while True:
+            item = q.get()
+            if item is None:
+                return
+            job, fut = item
+            if fut.cancelled():
+                continue
+            try:
+                p.stdin.write(json.dumps(list(job), default=str) + "\n")
+                p.stdin.flush()
+                line = p.stdout.readline()
+                if not line:
+                    raise RuntimeError("zygote died")
+                fut.set_result(pickle.loads(base64.b64decode(line)))
+            except BaseException as e:  # noqa: BLE001
+                fut.set_result({"fatal": f"zygote pool: {type(e).__name__}: {e}",
+                                "seed": job[0] if job[0] != "sched" else job[1].get("seed")})
+                return
+
+    def submit(self, fn_ignored, job):
+        from concurrent.futures import Future
+
+        fut = Future()
+        fut.set_running_or_notify_cancel()
+        h = job_hashseed(job)
+        if h not in self.queues:
+            h = HASHSEEDS[0]
+        self.queues[h].put((job, fut))
+        return fut
+
+    def shutdown(self, wait=False, cancel_futures=True):
+        if self.closed:
+            return
+        self.closed = True
+        for q in self.queues.values():
+            for _ in range(len(self.procs)):
+                q.put(None)
+        for p in self.procs:
+            try:
+                p.kill()
+            except Exception:  # noqa: BLE001
+                pass
+        for p in self.procs:
+            try:
+                p.wait(timeout=5)
+            except Exception:  # noqa: BLE001
+                pass
 
 
 def make_pool(n=None):
-    import multiprocessing as mp
-    from concurrent.futures import ProcessPoolExecutor
-
-    n = n or min(16, os.cpu_count() or 4)
-    th = env.tree_hash()
-    return ProcessPoolExecutor(max_workers=n, mp_context=mp.get_context("fork"), initializer=_pool_init,
-                               initargs=(th,))
+    return ZygotePool(n)
 
 
 def ensure_numba_cache():
@@ -202,11 +301,19 @@ def ensure_numba_cache():
         for name in os.listdir(root):
             if name != th[:16]:
                 shutil.rmtree(os.path.join(root, name), ignore_errors=True)
-    code = "from sim import runner; runner._warm_up()"
-    p = subprocess.run([env.PY, "-W", "ignore", "-c", code], cwd=env.VERIF, env=env.child_env(th=th),
-                       capture_output=True, text=True, timeout=900)
-    if p.returncode != 0:
-        raise RuntimeError("HARNESS-ERROR numba warm-up failed:\n" + p.stderr[-2000:])
+    procs = []
+    for fam in ("daily", "billing", "hourly"):
+        code = f"from sim import runner; runner._warm_up(only={fam!r})"
+        procs.append(subprocess.Popen([env.PY, "-W", "ignore", "-c", code], cwd=env.VERIF, env=env.child_env(th=th),
+                                      stdout=subprocess.DEVNULL, stderr=subprocess.PIPE, text=True))
+    for p in procs:
+        try:
+            _o, err = p.communicate(timeout=900)
+        except subprocess.TimeoutExpired:
+            p.kill()
+            raise RuntimeError("HARNESS-ERROR numba warm-up timed out")
+        if p.returncode != 0:
+            raise RuntimeError("HARNESS-ERROR numba warm-up failed:\n" + (err or "")[-2000:])
     with open(marker, "w") as f:
         f.write(th)
     return d, True
